@@ -117,7 +117,7 @@ Qed.
 Lemma make_parser_init en bc r :
   let p := make_parser en bc r in
   p_fp p = mkfp [] false false false true /\ p_first p = true /\ p_sc_nil p = false /\ p_rd p = r /\
-  sc_data (p_sc p) = [] /\ p_sc p = p_sc (make_parser en bc (mkrd [] CleanEOF 0)).
+  sc_data (p_sc p) = [] /\ p_sc p = p_sc (make_parser en bc (mkrd [] CleanEOF 0)) /\ sc_err (p_sc p) = None.
 Proof.
   unfold make_parser.
   destruct en; [destruct (0 <? bc_max bc)%Z|destruct (bc_has_buf bc || (0 <? bc_max bc)%Z)]; repeat split; reflexivity.
@@ -155,7 +155,8 @@ Qed.
    consume a prefix P of it and Parser.Err() is ErrTooLong *)
 Definition top_result (en : entry) (bc : bufcfg) (chunks : list bytes) (e : ending) : Prop :=
   let p0 := make_parser en bc (mkrd chunks e 0) in
-  (exists LS tl, pf_run p0 (fields_of LS) (end_err tl e) /\ spec_lines (concat chunks) e LS tl) \/
+  (exists LS tl, pf_run p0 (fields_of LS) (end_err tl e) /\ spec_lines (concat chunks) e LS tl /\
+                 cpath (bound_of en bc) (concat chunks) /\ (0 < bound_of en bc)%N) \/
   (exists LS P, pf_run p0 (fields_of LS) (Some ETooLong) /\ tpath (bound_of en bc) (concat chunks) P /\
                 forall e', spec_lines P e' LS []).
 
@@ -163,10 +164,10 @@ Theorem parser_fields_gen en bc chunks e : ending_ok e -> top_result en bc chunk
 Proof.
   intros He. unfold top_result.
   set (B := bound_of en bc) in *. set (p0 := make_parser en bc (mkrd chunks e 0)).
-  destruct (make_parser_init en bc (mkrd chunks e 0)) as (Hfp & Hfirst & Hnil & Hrd & Hdata & Hsc). fold p0 in Hfp, Hfirst, Hnil, Hrd, Hdata, Hsc.
+  destruct (make_parser_init en bc (mkrd chunks e 0)) as (Hfp & Hfirst & Hnil & Hrd & Hdata & Hsc & Herr0). fold p0 in Hfp, Hfirst, Hnil, Hrd, Hdata, Hsc, Herr0.
   destruct (make_parser_inv en bc chunks e) as [Hinv _]. fold p0 B in Hinv.
   assert (Hi2 : sc_inv2 B (p_sc p0)).
-  { unfold sc_inv2, B, bound_of. rewrite Hsc. apply N.max_comm. }
+  { unfold sc_inv2. split; [unfold B, bound_of; rewrite Hsc; apply N.max_comm|]. intros Hx. congruence. }
   assert (HR0 : p_rest p0 = concat chunks).
   { unfold p_rest, rest_of. rewrite Hdata, Hrd. reflexivity. }
   assert (Hnext : fp_next (p_fp p0) = (None, p_fp p0)) by (rewrite Hfp; reflexivity).
@@ -229,10 +230,13 @@ Proof.
       assert (Hs4 : shape (fp_data f4)) by (rewrite Hd4; destruct nls; [now apply shape_unbom|exact Hs0]).
       destruct Hs4 as [ls Hs]. rewrite Hw1 in Hs. injection Hs as _ Hs. congruence. }
     destruct (pf_tokens B e He (S (length (fp_data (p_fp p1)) + 2 * length (p_rest p1))) p1 ls1 tl1 (Nat.lt_succ_diag_r _) Hc1 Hw1 Htl1)
-      as [(LS1 & tl & Hrun & Ht1 & Ht2)|(LS1 & P' & Hrun & Ht0 & Hnl1 & Hpath & Htoks)].
+      as [(LS1 & tl & Hrun & Ht1 & Ht2 & Hcp)|(LS1 & P' & Hrun & Ht0 & Hnl1 & Hpath & Htoks)].
     + left. exists (ls1 ++ LS1), tl. rewrite fields_of_app. split; [eapply pf_run_eq; eassumption|].
-      rewrite Hp1r in Ht1. rewrite HR.
-      exact (first_token_spec nls tok (skipn adv R) (fp_data f4) ls1 tl1 LS1 tl e Hnl Hh Hd4 Hw1 Hsh Ht1 Ht2).
+      rewrite Hp1r in Ht1, Hcp. split; [|split].
+      * rewrite HR.
+        exact (first_token_spec nls tok (skipn adv R) (fp_data f4) ls1 tl1 LS1 tl e Hnl Hh Hd4 Hw1 Hsh Ht1 Ht2).
+      * exact (cp_tok B R n0 eof adv tok Hn0 HnB Heof Hsf Hcp).
+      * clear - Hadv HnB. lia.
     + destruct HD as [Hm|Hl]; [|contradiction].
       right. exists (ls1 ++ LS1), (firstn adv R ++ P'). rewrite fields_of_app.
       split; [eapply pf_run_eq; eassumption|]. split.
@@ -244,7 +248,7 @@ Proof.
         -- intros Hne. contradiction.
   - (* no token at all *)
     destruct Hpost as (Hst & Hcase). rewrite Hfirst in Hst. injection Hst as -> ->.
-    destruct Hcase as [(Hne & Htoo & Hlen & Hmore)|(HR & Herr2 & Hrest2)].
+    destruct Hcase as [(Hne & Htoo & Hlen & Hmore)|(HR & Herr2 & Hrest2 & HB0)].
     + right. exists [], []. cbn [fields_of flat_map].
       assert (Hse : sc_error sc' = Some ETooLong) by (unfold sc_error; rewrite Htoo; reflexivity).
       rewrite Hse, Hnil in Hpn.
@@ -254,7 +258,7 @@ Proof.
     + left. exists [], []. cbn [fields_of flat_map].
       pose proof (parser_err_end e sc' rd' (p_fp p0) true (p_sc_nil p0) [] He Herr2 Hnil) as Hpe.
       rewrite <- Hpe by (rewrite Hfp; reflexivity).
-      split; [apply pf_end; exact Hpn|].
+      split; [apply pf_end; exact Hpn|]. split; [|split; [rewrite HR; constructor|exact (HB0 Herr0)]].
       intros m id Hm. rewrite HR. reflexivity.
 Qed.
 
@@ -264,7 +268,8 @@ Theorem parser_fields en bc chunks e :
   exists LS tl, pf_run (make_parser en bc (mkrd chunks e 0)) (fields_of LS) (end_err tl e) /\
                 spec_lines (concat chunks) e LS tl.
 Proof.
-  intros He Hfit. destruct (parser_fields_gen en bc chunks e He) as [H|(LS & P & _ & Hpath & _)]; [exact H|].
+  intros He Hfit. destruct (parser_fields_gen en bc chunks e He) as [(LS & tl & H1 & H2 & _)|(LS & P & _ & Hpath & _)];
+    [exists LS, tl; split; assumption|].
   exfalso. exact (fits_tpath _ _ _ Hpath 0%N (fits_from_start _ _ Hfit)).
 Qed.
 
